@@ -503,36 +503,43 @@ impl<'a> From<Piece<'a>> for Chunk {
 
                     let key = match formatter.args.first() {
                         Some(arg) => {
-                            if let Some(arg) = arg.first() {
-                                match arg {
-                                    Piece::Text(key) => key.to_owned(),
+                            if arg.is_empty() {
+                                return Chunk::Error("invalid MDC key".to_owned());
+                            }
+                            // escaped characters split the argument into several text pieces
+                            let mut key = String::new();
+                            for piece in arg {
+                                match piece {
+                                    Piece::Text(text) => key.push_str(text),
                                     Piece::Error(ref e) => return Chunk::Error(e.clone()),
                                     _ => return Chunk::Error("invalid MDC key".to_owned()),
                                 }
-                            } else {
-                                return Chunk::Error("invalid MDC key".to_owned());
                             }
+                            key
                         }
                         None => return Chunk::Error("missing MDC key".to_owned()),
                     };
 
                     let default = match formatter.args.get(1) {
                         Some(arg) => {
-                            if let Some(arg) = arg.first() {
-                                match arg {
-                                    Piece::Text(key) => key.to_owned(),
+                            if arg.is_empty() {
+                                return Chunk::Error("invalid MDC default".to_owned());
+                            }
+                            let mut default = String::new();
+                            for piece in arg {
+                                match piece {
+                                    Piece::Text(text) => default.push_str(text),
                                     Piece::Error(ref e) => return Chunk::Error(e.clone()),
                                     _ => return Chunk::Error("invalid MDC default".to_owned()),
                                 }
-                            } else {
-                                return Chunk::Error("invalid MDC default".to_owned());
                             }
+                            default
                         }
-                        None => "",
+                        None => String::new(),
                     };
 
                     Chunk::Formatted {
-                        chunk: FormattedChunk::Mdc(key.into(), default.into()),
+                        chunk: FormattedChunk::Mdc(key, default),
                         params: parameters,
                     }
                 }
